@@ -141,6 +141,10 @@ type Server struct {
 	RejectSet func(c *Conn, name, value string) *SQLErr
 	// SnapshotVars makes query events carry a copy of the connection's variables.
 	SnapshotVars bool
+	// VarAlias, if set, maps a (lower-case) session variable name onto the name it is an alias of
+	// (e.g. "transaction_read_only" -> "tx_read_only" on MySQL 5.7.20+): assignments to either name
+	// then write the same entry of Conn.Vars, in statement order, as a real server does. Set before use.
+	VarAlias map[string]string
 	// DefaultCharset/DefaultCollation of new connections.
 	DefaultCharset   string
 	DefaultCollation string
@@ -823,10 +827,14 @@ func (c *Conn) applySet(body string) *SQLErr {
 				c.UserVars[a.Name] = a.Value
 			}
 		default:
+			name := a.Name
+			if to, ok := c.srv.VarAlias[name]; ok {
+				name = to
+			}
 			if a.Default {
-				delete(c.Vars, a.Name)
+				delete(c.Vars, name)
 			} else {
-				c.Vars[a.Name] = a.Value
+				c.Vars[name] = a.Value
 			}
 		}
 	}
